@@ -30,6 +30,22 @@ MOLS = {
     "C6H2": (["H", "C", "C", "C", "C", "C", "C", "H"], [[0.0, 0.0, z] for z in (-4.245, -3.185, -1.975, -0.605, 0.605, 1.975, 3.185, 4.245)]),
     "H2CO": (["C", "O", "H", "H"], [[0.0, 0.0, -0.53], [0.0, 0.0, 0.68], [0.0, 0.94, -1.12], [0.0, -0.94, -1.12]]),
 }
+
+
+def blob(n):
+    """a compact molecule-sized cluster of n atoms (C, N, O, H in turn): the n lattice points of a 1.5 A fcc-like lattice nearest to a
+    generic centre - roughly spherical for every n, so the surface is star-shaped about the centroid"""
+    g = np.arange(-4, 5)
+    pts = np.array([(i, j, k) for i in g for j in g for k in g if (i + j + k) % 2 == 0], dtype=float) * (1.5 / 2 ** 0.5)
+    order = np.argsort(np.linalg.norm(pts - np.array([0.21, 0.13, 0.08]), axis=1), kind="stable")
+    pts = pts[order][:n]
+    return [("C", "N", "O", "H")[i % 4] for i in range(n)], [list(map(float, q)) for q in pts]
+
+
+BLOB_SIZES_QUICK = (9, 17, 31, 32, 33, 40, 48, 63, 64, 65, 100)
+BLOB_SIZES_THOROUGH = tuple(range(9, 131))
+for _n in BLOB_SIZES_THOROUGH:
+    MOLS["blob%d" % _n] = blob(_n)
 LMAX = (4, 6, 8, 12)
 # bounds on the pose deviation (metric below), calibrated on the unchanged tree over VERIF_SEED 0..9 and widened >= 10x
 # over the worst observed; rotation: discretisation error, shrinking with l_max; translation / permutation: float32 noise
@@ -85,7 +101,12 @@ def perms(n):
     if n <= 4:
         return [p for p in itertools.permutations(range(n)) if p != tuple(range(n))]
     base = list(range(n))
-    return [tuple(base[::-1]), tuple(base[1:] + base[:1]), tuple(base[2:] + base[:2])]
+    out = [tuple(base[::-1]), tuple(base[1:] + base[:1]), tuple(base[2:] + base[:2])]
+    if n > 8:
+        # medium-sized molecules: an interleaving shuffle (every atom changes its block and its place in the block) and a half swap
+        step = next(k for k in (7, 11, 13, 17, 19, 23) if math.gcd(k, n) == 1)
+        out += [tuple((i * step + 3) % n for i in range(n)), tuple(base[n // 2:] + base[:n // 2])]
+    return out
 
 
 pose_R = np.eye(3)
@@ -625,8 +646,14 @@ def run(ctx):
     for L in (4, 8, 12):
         for kind, ch, iso in (("promolecule", None, 2e-4), ("molecule-api", None, None), ("promolecule", "d_norm", 2e-4), ("promolecule-origin", None, 2e-4)):
             jobs.append(("mol", ("C6H2", L, kind, ch, iso, rod_rots, ctx.seed)))
+    # medium-sized molecules (a blocked / chunked sum over the atoms that mishandles some remainder has nowhere to hide below the bound):
+    # compact clusters of 9 .. 130 atoms, every property channel, under translation and five reorderings (no rotations: the pose bounds
+    # are calibrated on small molecules)
+    for n_ in (BLOB_SIZES_THOROUGH if ctx.thorough else BLOB_SIZES_QUICK):
+        for kind, ch, iso in (("promolecule", None, 2e-4), ("promolecule", "d_norm", 2e-4), ("promolecule", "esp", 2e-4), ("molecule-api", "esp", None)):
+            jobs.append(("mol", ("blob%d" % n_, 4 if n_ % 2 else 6, kind, ch, iso, [], ctx.seed)))
     for name in MOLS:
-        if name == "C6H2":
+        if name == "C6H2" or name.startswith("blob"):
             continue
         for L in LMAX:
             # default: promolecule shape at isovalue 2e-4; deviations one axis at a time (thorough: full product)
